@@ -171,6 +171,8 @@ struct Case {
     /// Some(path): the configuration is read from this file (patterns still match the path of the
     /// source as darklua sees it, wherever the configuration file sits); None: given as a value
     config_at: Option<String>,
+    /// rotates the position of the filter keys inside the rule objects
+    key_order: u8,
 }
 
 fn list_json(l: &[String], single_form: bool) -> Value {
@@ -183,18 +185,41 @@ fn list_json(l: &[String], single_form: bool) -> Value {
 
 impl Case {
     fn config_json(&self) -> String {
-        let mut rules = vec![];
-        for r in &self.rules {
-            let mut o = r.base.clone();
-            if !r.apply.is_empty() {
-                o["apply_to_files"] = list_json(&r.apply, self.single_form);
+        // the members of a rule object in every order: filters before, after and around the rule's own
+        // keys, `skip_files` before or after `apply_to_files` (the text is assembled by hand: the
+        // JSON library would sort the keys)
+        let mut rule_texts = vec![];
+        for (i, r) in self.rules.iter().enumerate() {
+            let own = r.base.to_string();
+            let mut members: Vec<String> = vec![own.trim_start_matches('{').trim_end_matches('}').to_string()];
+            let apply = (!r.apply.is_empty()).then(|| format!("\"apply_to_files\":{}", list_json(&r.apply, self.single_form)));
+            let skip = (!r.skip.is_empty()).then(|| format!("\"skip_files\":{}", list_json(&r.skip, self.single_form)));
+            match (self.key_order as usize + i) % 4 {
+                0 => {
+                    members.extend(apply);
+                    members.extend(skip);
+                }
+                1 => {
+                    let mut front: Vec<String> = skip.into_iter().chain(apply).collect();
+                    front.append(&mut members);
+                    members = front;
+                }
+                2 => {
+                    let mut front: Vec<String> = apply.into_iter().collect();
+                    front.append(&mut members);
+                    members = front;
+                    members.extend(skip);
+                }
+                _ => {
+                    let mut front: Vec<String> = skip.into_iter().collect();
+                    front.append(&mut members);
+                    members = front;
+                    members.extend(apply);
+                }
             }
-            if !r.skip.is_empty() {
-                o["skip_files"] = list_json(&r.skip, self.single_form);
-            }
-            rules.push(o);
+            rule_texts.push(format!("{{{}}}", members.into_iter().filter(|m| !m.is_empty()).collect::<Vec<_>>().join(",")));
         }
-        let mut c = json!({ "rules": rules });
+        let mut c = json!({ "rules": "@RULES@" });
         if !self.generator.is_empty() {
             c["generator"] = json!(self.generator);
         }
@@ -204,7 +229,7 @@ impl Case {
         if !self.top_skip.is_empty() {
             c["skip_files"] = list_json(&self.top_skip, self.single_form);
         }
-        c.to_string()
+        c.to_string().replace("\"@RULES@\"", &format!("[{}]", rule_texts.join(",")))
     }
     fn to_json(&self) -> Value {
         json!({
@@ -217,6 +242,7 @@ impl Case {
             "generator": self.generator,
             "single": self.single.as_ref().map(|(a, b)| json!([a, b])),
             "config_at": self.config_at,
+            "key_order": self.key_order,
         })
     }
     fn from_json(v: &Value) -> Option<Case> {
@@ -233,6 +259,7 @@ impl Case {
             generator: v.get("generator").and_then(|g| g.as_str()).unwrap_or("").to_string(),
             single: v.get("single").and_then(|s| s.as_array()).and_then(|a| Some((a.first()?.as_str()?.to_string(), a.get(1)?.as_str()?.to_string()))),
             config_at: v.get("config_at").and_then(|s| s.as_str()).map(|s| s.to_string()),
+            key_order: v.get("key_order").and_then(|k| k.as_u64()).unwrap_or(0) as u8,
         })
     }
 }
@@ -287,7 +314,8 @@ fn gen_case(t: &mut Tape) -> Case {
         3 => Some("conf/settings.json".to_string()),
         _ => None,
     };
-    Case { files, top_apply, top_skip, rules, single_form, in_place, generator, single, config_at }
+    let key_order = t.choose(4) as u8;
+    Case { files, top_apply, top_skip, rules, single_form, in_place, generator, single, config_at, key_order }
 }
 
 fn check(case: &Case) -> Result<bool, String> {
